@@ -21,7 +21,8 @@ class SchedAdapter:
     def __init__(self, desc, targets, props, reqs=2, mode='ample',
                  req_menu=None, outcomes=OUTCOMES, max_workers=2,
                  max_copies=2, double_reply=False, revs=None, life=False, poll=False,
-                 max_life=2, clock_at=None, max_timers=0):
+                 max_life=2, clock_at=None, max_timers=0, faults=0):
+        self.faults = faults
         import datetime
         if isinstance(clock_at, str):
             clock_at = datetime.datetime.fromisoformat(clock_at)
@@ -157,7 +158,7 @@ class SchedAdapter:
         return tuple(sorted(m.items()))
 
     def internal(self, ev):
-        return ev[0] in ('tick', 'reply')
+        return (ev[0] in ('tick', 'reply')) and ev != ('tick', 'db-outage')
 
     def enabled(self, s):
         evs = []
@@ -165,6 +166,9 @@ class SchedAdapter:
             for tag, tg in self.req_menu:
                 evs.append(('req', tag, tg))
         evs.append(('tick',))
+        if self.faults and s['mon'].get('faults', 0) < self.faults:
+            # a dispatch during which the first db.next() draw raises
+            evs.append(('tick', 'db-outage'))
         seen = set()
         for j, t, r, _u in s['inflight']:
             if (j, t, r) in seen:
@@ -184,7 +188,11 @@ class SchedAdapter:
         if self.poll:
             for rev in self.revs:
                 evs.append(('poll', rev))
-        if self.life and s['mon'].get('life', 0) < self.max_life:
+        if self.life == 'reload':
+            # a reload of the same software at any moment (C03: "since the last (re)load")
+            if s['mon'].get('life', 0) < self.max_life:
+                evs.append(('life', 'reload', s['rev']))
+        elif self.life and s['mon'].get('life', 0) < self.max_life:
             evs.append(('life', 'inactive' if s['active'] else 'active'))
             if s['rev'] != self.revs[-1]:
                 evs.append(('life', 'reload', self.revs[-1]))
@@ -196,7 +204,7 @@ class SchedAdapter:
         if kind == 'req':
             w.ev_req(ev[1], ev[2])
         elif kind == 'tick':
-            w.ev_tick()
+            w.ev_tick(fault=len(ev) > 1)
         elif kind == 'reply':
             _k, j, t, r, o = ev[:5]
             idx = [i for i, u in enumerate(w.inflight) if tuple(u[:3]) == (j, t, r)]
@@ -274,9 +282,13 @@ class SchedAdapter:
 
     def monitors(self, s, ev, before, ns, report):
         mon = dict(s['mon'])
+        after = self.snapshot_sets()
+        if ev[0] == 'life' and ev[1] == 'reload':
+            # a new schedule: provenance of the old one says nothing about it
+            mon = {k: v for k, v in mon.items() if k in ('life', 'taint', 'ntimer', 'next_calls')}
+            before = after
         removed = dict(mon.get('removed', ()))
         # provenance: who last removed (tag,target) from `doing`
-        after = self.snapshot_sets()
         for tag in after:
             gone = set(before[tag][1]) - set(after[tag][1])
             if gone:
@@ -368,6 +380,8 @@ class SchedAdapter:
             mon['trig'] = tuple(sorted(trig.items()))
         if ev[0] == 'life':
             mon['life'] = mon.get('life', 0) + 1
+        if tuple(ev) == ('tick', 'db-outage'):
+            mon['faults'] = mon.get('faults', 0) + 1
         if ev[0] == 'timer':
             mon['ntimer'] = mon.get('ntimer', 0) + 1
         return mon
